@@ -1147,8 +1147,12 @@ def clim_reference(kind, anom):
         return ref.spearman_matrix(anom), TOL_R, tag
     if kind == "PartialCorrelation":
         P, cond = ref.partial_corr_matrix(anom)
-        if not cond < 1e3 or anom.shape[0] < N + 3:
+        # (double-precision inversion: forward error ~ eps * cond, far
+        #  below the single-precision tolerance up to cond 1e7)
+        if not cond < 1e7 or anom.shape[0] < N + 3:
             return None, TOL_R, ""
+        if cond > 1e3:
+            return P, TOL_R, ":ill-conditioned"
         return P, TOL_R, ""
     if kind == "MutualInfo":
         mi, flips = ref.climate_hist_mi(anom, 32)
@@ -1186,6 +1190,15 @@ def fam_clim(ctx, mods, r, k, cid):
     N = int(r.integers(2, 9))
     style = str(r.choice(["normal", "ar", "dyadic", "int"]))
     obs, tags = gen_data(r, T, N, style)
+    if r.random() < 0.15 and N >= 3 and T >= N + 6:
+        # nearly collinear series (smooth fields, duplicated stations):
+        # correlation matrices with condition numbers of 1e3 .. 1e6
+        dl = float(r.choice([3e-2, 1e-2, 3e-3]))
+        obs = np.asarray(obs, float).copy()
+        obs[:, 1] = obs[:, 0] + dl * r.normal(size=T) * max(
+            1e-12, float(np.std(obs[:, 0])))
+        tags = list(tags) + ["nearly-collinear"]
+        ctx.count("clim_nearly_collinear")
     lat = [float(v) for v in r.integers(-80, 81, size=N)]
     lon = [float(v) for v in r.integers(-170, 171, size=N)]
     anomalies_flag = (not winter) and tc == 1 and r.random() < 0.3
@@ -1203,7 +1216,7 @@ def fam_clim(ctx, mods, r, k, cid):
             ctx.count("rejected")
             ctx.count(f"clim_{kind}_undefined")
             continue
-        sig_tag = tag if kind == "Spearman" else ""
+        sig_tag = tag if kind in ("Spearman", "PartialCorrelation") else ""
         ok, net = build_net(ctx, mods, kind, obs, lat, lon, tc, winter,
                             anomalies_flag, non_local=bool(r.random() < 0.3))
         ctx.evals()
@@ -1241,7 +1254,8 @@ def fam_clim(ctx, mods, r, k, cid):
             # (nearly) tied ranks are a separately signed input class: the
             # relations below would only restate the reference comparison
             # (rounding noise decides the rank order of tied samples)
-            ctx.count("clim_spearman_ties_compared")
+            ctx.count("clim_spearman_ties_compared" if kind == "Spearman"
+                      else "clim_partial_illconditioned_compared")
             continue
         # the stored similarity = |statistic| of the object's own anomaly
         nb2, _, idx = worst(sim, np.where(np.isnan(Rm), np.nan,
